@@ -39,7 +39,7 @@ EXTENDS Integers, FiniteSets, TLC, Json
 
 CONSTANTS
     W,          \* bits of the scaled `int` / `uint32_t`
-    MaxSize,    \* file sizes 0..MaxSize
+    Sizes,      \* file sizes that are explored
     Guarded,    \* see above
     JSizes,     \* values of the jumbo size field that are explored (subset of 0..UMAX)
     JFlags,     \* low flag nibbles explored for jumbo events (ignored by the code)
@@ -59,6 +59,9 @@ JSQuick    == {0, 1, 2, 3, 4, 5, 6, 8, 9, 12, 16, 17, 20, 28, 29, 40, 63,
                200, 224, 228, 236, 239, 240, 241, 243, 244, 245, 250, 251, 252, 253, 254, 255}
 JSAll      == 0..UMAX
 JFQuick    == {0, 3, 15}
+SzQuick    == 0..40
+SzAll      == 0..62               \* < 2^(W-2), see Rel
+SzExport   == {0, 1, 7, 8, 9, 19, 20, 21, 23, 24, 36, 40}
 JFAll      == 0..15
 
 \* (int) x for a wide unsigned x: keep the low W bits, two's complement
@@ -85,14 +88,14 @@ VARIABLES
     prev,       \* offset before the last Advance (ghost, Progress)
     pc,         \* "open" | "load" | "consume" | "advance" | "done"
     cur,        \* event at the cursor
-    verdict,    \* "none" | "exit0" | "exit1" | "ub" | "oob" | "null"
+    verdict,    \* "none" | "exit0" | "exit1" | "ub" | "loop" | "null"
     reads,      \* byte ranges <<lo, hi>> of the stream buffer read by the last action (ghost)
     last        \* ghost: description of the last action (exported)
 vars == <<size, off, prev, pc, cur, verdict, reads, last>>
 
 Stop(v) == pc' = "done" /\ verdict' = v
 
-Init == /\ size \in 0..MaxSize
+Init == /\ size \in Sizes
         /\ off = 0 /\ prev = -1 /\ pc = "open" /\ cur = NoEv
         /\ verdict = "none" /\ reads = {} /\ last = [k |-> "init"]
 
@@ -169,10 +172,7 @@ Load ==
                 hoob == \E r \in rd : r[1] < 0 \/ r[2] > size
             IN
             /\ reads' = rd
-            /\ IF off < 0
-               THEN \* the cursor left the buffer: wild read
-                    /\ Stop("oob") /\ cur' = cur /\ last' = LoadRec(e, rem, "oob", TRUE)
-               ELSE IF SizeUB(e)
+            /\ IF SizeUB(e)
                THEN /\ Stop("ub") /\ cur' = cur /\ last' = LoadRec(e, rem, "ub", hoob)
                ELSE IF off + EvSize(e) > size
                THEN /\ Stop("exit1") /\ cur' = cur /\ last' = LoadRec(e, rem, "exit1", hoob)
@@ -238,15 +238,20 @@ Consume ==
                  ELSE /\ reads' = {<<PayAt + JSZ, lab + strl + 1>>} /\ pc' = "advance" /\ verdict' = verdict
                       /\ last' = ConsRec("label", 0, "", strl, "ok")
 
-(* stream_step, first half: offset += ovni_ev_size(cur_ev) *)
+(* stream_step, first half: offset += ovni_ev_size(cur_ev).
+   Current arithmetic: a step that does not move the cursor forward makes the
+   walk revisit bytes (the same event for ever when the step is 0, a garbage
+   or wild walk when it is negative); the model stops there with the verdict
+   "loop" instead of following the over-approximated content any further. *)
 Advance ==
     /\ pc = "advance"
-    /\ UNCHANGED <<size, cur>>
-    /\ reads' = {}
+    /\ UNCHANGED size
+    /\ reads' = {} /\ cur' = NoEv
     /\ LET n == off + (IF Guarded THEN WideSize(cur) ELSE EvSize(cur)) IN
        /\ prev' = off /\ off' = n
        /\ last' = [k |-> "advance", step |-> n - off]
-       /\ IF n > size THEN Stop("exit1")
+       /\ IF n <= off THEN Stop("loop")
+          ELSE IF n > size THEN Stop("exit1")
           ELSE IF n = size THEN Stop("exit0")
           ELSE pc' = "load" /\ verdict' = verdict
 
@@ -254,8 +259,8 @@ Next == Open \/ Load \/ Consume \/ Advance
 Spec == Init /\ [][Next]_vars
 
 -----------------------------------------------------------------------------
-TypeOK == /\ size \in 0..MaxSize /\ off \in Int /\ pc \in {"open", "load", "consume", "advance", "done"}
-          /\ verdict \in {"none", "exit0", "exit1", "ub", "oob", "null"}
+TypeOK == /\ size \in Sizes /\ off \in Int /\ pc \in {"open", "load", "consume", "advance", "done"}
+          /\ verdict \in {"none", "exit0", "exit1", "ub", "loop", "null"}
 
 \* the cursor stays inside the events area and nothing is read outside the loaded file
 CursorInBounds == /\ pc \in {"load", "consume", "advance"} => (off >= SHDR /\ off < size)
@@ -278,4 +283,6 @@ StepIsExtent == (pc = "advance") => (IF Guarded THEN WideSize(cur) ELSE EvSize(c
 (* Export of every transition with its class (ACTION_CONSTRAINT, run without invariants) *)
 Export == \/ last'.k \in {"init", "advance"}
           \/ PrintT(<<"TR", ToJson(last')>>)
+\* the ghosts are functions of the rest of the state and of the action taken
+ExportView == <<size, off, pc, cur, verdict>>
 =============================================================================
